@@ -110,3 +110,35 @@ def gen(r, tier):
 def nontrivial(case, obs):
     ks = [t.split(":")[0] for t in case.split() if ":" in t]
     return len(ks) != len(set(ks)) or len(set(ks)) > 2
+
+
+def t2(chk, wc, tier, seed):
+    """the probing and growth arithmetic of the combining frame, regenerated from exec/combiner.go: the first slot is
+    `hash & mask`, every further probe `idx = (idx + try) & mask` with try = 1, 2, … (BS.Table.pidxRec; closed form pidx by
+    BS.Table.probe_recurrence), mask = capacity - 1, the table doubles when len exceeds the threshold (load factor 0.7),
+    both in `combine` and in the rehash of `added`."""
+    import re
+    import vlib
+    src = open(wc.repo + "/exec/combiner.go").read()
+    first = re.findall(r"idx := int\((?:c\.scratch|data0)\.HashWithSeed\(i, hashSeed\)\) & c\.mask", src)
+    loops = re.findall(r"for try := 1; ; try\+\+ \{", src)
+    steps = re.findall(r"idx = \(idx \+ try\) & c\.mask", src)
+    mask = re.search(r"c\.mask = ndata - 1", src) is not None
+    m = re.search(r"combiningFrameLoadFactor\s*=\s*([0-9.]+)", src)
+    load = m.group(1) if m else "?"
+    thr = re.search(r"c\.threshold = int\(combiningFrameLoadFactor \* float64\(ndata\)\)", src) is not None
+    grow = re.search(r"c\.len \+= 1\n\tif c\.len <= c\.threshold \{\n\t\treturn\n\t\}", src) is not None
+    dbl = re.search(r"n := c\.cap \* 2\n", src) is not None
+    gen = ("def firstProbesG : Nat := %d\ndef probeLoopsG : Nat := %d\ndef probeStepsG : Nat := %d\ndef maskIsCapMinusOneG : Bool := %s\n"
+           'def loadFactorG : String := "%s"\ndef thresholdFromLoadG : Bool := %s\ndef growsAboveThresholdG : Bool := %s\ndef doublesG : Bool := %s') % (
+        len(first), len(loops), len(steps), "true" if mask else "false", load, "true" if thr else "false",
+        "true" if grow else "false", "true" if dbl else "false")
+    ties = [("probe_arithmetic_tie",
+             'theorem probe_arithmetic_tie : firstProbesG = 2 ∧ probeLoopsG = 2 ∧ probeStepsG = 2 ∧ maskIsCapMinusOneG = true ∧ '
+             'loadFactorG = "0.7" ∧ thresholdFromLoadG = true ∧ growsAboveThresholdG = true ∧ doublesG = true := by decide',
+             "exec/combiner.go combine / added: hash & mask, idx = (idx + try) & mask from try = 1, mask = cap - 1, threshold = 0.7 cap, "
+             "doubling when len exceeds it (BS.Table.pidxRec, threshold, grow)"),
+            ("threshold_model_tie",
+             "theorem threshold_model_tie : ∀ m, m < 31 → BS.Table.threshold (2 ^ m) = 7 * 2 ^ m / 10 := by intro m _; rfl",
+             "BS.Table.threshold is the integer part of 0.7 cap (compared slot by slot with the real frame by T1)")]
+    vlib.t2_check(chk, wc, "C09", ["BS.Model.Table"], gen, ties)
